@@ -35,9 +35,9 @@ def gen(rnd, cfg, nb):
     if rnd.random() < 0.3:
         # a long side branch next to the best chain (forked early, crossing retarget heights while it is not the head)
         # (shortest retarget period, so that the side branch outlives its fork point by more than an interval several times)
-        case = chainexec.gen_case(rnd, chainexec.CFGS[0], nb + 7, 0.25, CATS, p_fork=0.1, p_extend_side=0.5, p_tx=0.4, zero_rewards=True)
+        case = chainexec.gen_case(rnd, chainexec.CFGS[0], nb + 7, 0.25, CATS, p_fork=0.1, p_extend_side=0.5, p_tx=0.4, zero_rewards=True, p_binary_cbdata=0.3)
     else:
-        case = chainexec.gen_case(rnd, cfg, nb, 0.45, CATS, p_fork=0.45, p_tx=0.75, zero_rewards=True, p_deep_fork=0.2, deep_min=cfg[0] + 1)
+        case = chainexec.gen_case(rnd, cfg, nb, 0.45, CATS, p_fork=0.45, p_tx=0.75, zero_rewards=True, p_deep_fork=0.2, deep_min=cfg[0] + 1, p_binary_cbdata=0.3)
     ops = case["ops"]
     deliveries = []
     deferred = []
